@@ -1,32 +1,42 @@
 #!/bin/bash
 # Sensitivity self-test: reverting each repair (fix: commit) of /repo in a scratch worktree must make the quick
 # check of the property that exposed the defect report a VIOLATION. Uses VERIF_REPO, /repo itself is untouched.
+# The list of repairs and the property each belongs to come from the "fixed:" lines of known_findings.txt.
 # Result table is written to selftest/sensitivity_reverts.json.
 set -u
 HERE=$(cd "$(dirname "$0")/.." && pwd)
 WT=${TMPDIR:-/tmp}/grol-revert-wt.$$
-git -C /repo worktree add -q "$WT" HEAD || exit 2
+git -C /repo worktree add -q --detach "$WT" HEAD || exit 2
 trap 'git -C /repo worktree remove --force "$WT" 2>/dev/null' EXIT
-declare -A MAP=(
- [c22b9a1]=C10 [2ab473d]=C10 [ccaf8fe]=C05 [79e9d7f]=C05 [68408ec]=C05 [f1b07d7]=C05 [6435b8c]=C04 [44c8f57]=C20
- [f5b384a]=C11 [34fee10]=C19 [4d6de89]=C19 [1c9154c]=C14 [bdfe64d]=C14 [5ab5470]=C14 [fff1ad2]=C14 [9af6337]=C14
- [ac0090b]=C14 [4565c60]=C13 [12c6b94]=C13 [a2d31c2]=C03 [448272f]=C09 [98d0577]=C14 [b6a029d]=C14
-)
-echo "[" > "$HERE/selftest/sensitivity_reverts.json.tmp"; first=1
-for c in c22b9a1 2ab473d ccaf8fe 79e9d7f 68408ec f1b07d7 6435b8c 44c8f57 f5b384a 34fee10 4d6de89 1c9154c bdfe64d 5ab5470 fff1ad2 9af6337 ac0090b 4565c60 12c6b94 a2d31c2 448272f 98d0577 b6a029d; do
-  p=${MAP[$c]}
+ROWS=$(mktemp)
+grep '^fixed:' "$HERE/known_findings.txt" | while read -r _ prop c _; do
+  p=${prop#property=}
+  [ -n "${ONLY:-}" ] && [[ " $ONLY " != *" $c "* ]] && continue
   git -C "$WT" reset -q --hard HEAD; git -C "$WT" clean -qfd
-  if ! git -C /repo show "$c" -- '*.go' | git -C "$WT" apply -R 2>/dev/null; then
-    res="revert-does-not-apply"; e=-1
-  fi
-  if [ "${res:-}" != "revert-does-not-apply" ]; then
+  if ! git -C /repo show "$c" -- '*.go' ':!*_test.go' | git -C "$WT" apply -R 2>/dev/null; then
+    res="revert-does-not-apply"
+  elif ! (cd "$WT" && GOFLAGS=-mod=mod GOPROXY=off go build ./... >/dev/null 2>&1); then
+    res="revert-does-not-build"
+  else
     out=$(cd "$HERE" && VERIF_REPO="$WT" VERIF_SEED=${VERIF_SEED:-1} ./check.sh $p ${TIER:-quick} 2>&1); e=$?
     case $e in 1) res=caught;; 0) res=MISSED;; *) res="harness-exit-$e";; esac
   fi
-  subj=$(git -C /repo log -1 --format=%s $c | cut -c1-90 | sed 's/"/\\"/g')
-  echo "$c $p $res  ($subj)"
-  [ $first -eq 1 ] || echo "," >> "$HERE/selftest/sensitivity_reverts.json.tmp"; first=0
-  echo " {\"reverted_fix\": \"$c\", \"subject\": \"$subj\", \"check\": \"$p\", \"tier\": \"${TIER:-quick}\", \"result\": \"$res\"}" >> "$HERE/selftest/sensitivity_reverts.json.tmp"
-  res=""
+  subj=$(git -C /repo log -1 --format=%s $c)
+  echo "$c $p $res  ($(echo "$subj" | cut -c1-90))"
+  printf '%s\t%s\t%s\t%s\n' "$c" "$p" "$res" "$subj" >> "$ROWS"
 done
-echo "]" >> "$HERE/selftest/sensitivity_reverts.json.tmp"; mv "$HERE/selftest/sensitivity_reverts.json.tmp" "$HERE/selftest/sensitivity_reverts.json"
+python3 - "$ROWS" "$HERE/selftest/sensitivity_reverts.json" "${TIER:-quick}" "${ONLY:-}" <<'EOF'
+import json, sys, os
+rows, out, tier, only = sys.argv[1:5]
+new = [dict(zip(("reverted_fix", "check", "result", "subject"), l.rstrip("\n").split("\t"))) for l in open(rows)]
+for r in new:
+    r["tier"] = tier
+old = []
+if only and os.path.exists(out):
+    try:
+        old = [e for e in json.load(open(out)) if e["reverted_fix"] not in {r["reverted_fix"] for r in new}]
+    except Exception:
+        old = []
+json.dump(old + new, open(out, "w"), indent=1)
+EOF
+rm -f "$ROWS"
